@@ -2,5 +2,8 @@
 
 package fuse
 
+import "bazil.org/fuse/fs"
+
 // Verification hooks are compiled out unless the "verif" build tag is set.
 func verifBeforeNotifyDelete(dbName string) {}
+func verifBeforeForgetNode(node fs.Node)    {}
